@@ -6,6 +6,7 @@ Case format (sx):  [path, tr, lock, labels, second]        (decoded by coq/Run/C
          7 teardown after the request handler called client.aclose()
   tr     [0, base] | [1, [standard_compatible, unwrap_points, handshake_points], base]
   base   [0, leaf, m] (in-memory leaf transport whose aclose has m suspension points) | [1, send_half, recv_half]
+         [0, leaf, 0, 1] = the real AsyncioTransportStreamSocketAdapter over a loopback TCP pair (fd observed)
   lock   1: a sender task is suspended in the leaf's send_all, holding the send lock and the send guard
   labels outcome at each suspension point reached, in order: 0 completes, 1 raises OSError, 2 the closing task is
          cancelled, 3 the enclosing timed scope (TLS shutdown / handshake timeout) expires
@@ -146,6 +147,7 @@ class World:
         self.pending = None        # future of the suspension point the closing task is parked at
         self.scripting = False     # False while the harness sets the scene (handshake, sender): I/O never suspends
         self.sender_fut = None     # the suspended sender's send_all
+        self.on_sender_armed = None
 
     async def point(self):
         fut = asyncio.get_running_loop().create_future()
@@ -187,6 +189,8 @@ def make_classes():
             if self.world.sender_fut == "arm":
                 fut = asyncio.get_running_loop().create_future()
                 self.world.sender_fut = fut
+                if self.world.on_sender_armed is not None:
+                    self.world.on_sender_armed.set()
                 await fut
                 return
             if self.peer is not None:
@@ -229,6 +233,34 @@ def make_classes():
                     INETSocketAttribute.sockname: lambda: s.getsockname(), INETSocketAttribute.peername: lambda: s.getpeername()}
 
     return Leaf
+
+
+class AdapterLeaf:
+    """The production leaf: AsyncioTransportStreamSocketAdapter over a real asyncio transport (loopback TCP pair)."""
+
+    def __init__(self, idx):
+        self.idx = idx
+        srv = _socket.create_server(("127.0.0.1", 0))
+        self.sock = _socket.create_connection(srv.getsockname())
+        self.peer_sock, _ = srv.accept()
+        srv.close()
+        self.sock.setblocking(False)
+        self.adapter = None
+        self.peer = None
+
+    async def open(self, backend):
+        self.adapter = await backend.wrap_stream_socket(self.sock)
+        return self.adapter
+
+    @property
+    def closed(self):
+        # the resource itself: the adapter reports closing AND the file descriptor has been released
+        return bool(self.adapter.is_closing() and self.sock.fileno() == -1)
+
+    def cleanup(self):
+        self.peer_sock.close()
+        if self.sock.fileno() != -1:
+            self.sock.close()
 
 
 class TlsPeer:
@@ -349,7 +381,7 @@ def tls_points(tr):
     return tr[1][1] if tr[0] == 1 else 0
 
 
-def run_case(inp, trace=None):
+def run_case(inp, trace=None, cancel_at=None, info=None):
     path, tr, lock, labels, second = inp[:5]
     from easynetwork.lowlevel.api_async.backend._asyncio.backend import AsyncIOBackend
     from easynetwork.lowlevel.api_async.transports.composite import AsyncStapledStreamTransport
@@ -372,19 +404,35 @@ def run_case(inp, trace=None):
             # unwrap_pts: 0 peer closed first and sends do not suspend; 1 recv suspends; 2 send and recv suspend
             peer = TlsPeer(answer_close=1, send_suspends=(unwrap_pts >= 2))
 
-        def build(b):
+        async def abuild(b):
             if b[0] == 0:
+                if len(b) > 3 and b[3] == 1:
+                    lf = AdapterLeaf(b[1])
+                    leafs[b[1]] = lf
+                    return await lf.open(backend)
                 lf = Leaf(world, backend, b[1], b[2], sock=csock, peer=peer)
                 leafs[b[1]] = lf
                 return lf
-            return AsyncStapledStreamTransport(build(b[1]), build(b[2]))
+            return AsyncStapledStreamTransport(await abuild(b[1]), await abuild(b[2]))
 
-        lower = build(base)
+        bt = loop.create_task(abuild(base))
+        sp.quiesce(until=bt.done)
+        lower = bt.result()
+
+        counter = [0]
 
         def drive(task, is_main=True):
             """Run until the task is done, resolving each suspension point with the next label."""
             while not task.done():
-                sp.quiesce(until=task.done)
+                if cancel_at is not None and is_main:
+                    # per-iteration sweep: the closing task is cancelled after exactly cancel_at loop iterations
+                    while sp.ready() and not task.done():
+                        sp.iterate()
+                        counter[0] += 1
+                        if counter[0] == cancel_at:
+                            task.cancel()
+                else:
+                    sp.quiesce(until=task.done)
                 if task.done():
                     break
                 fut = world.pending
@@ -442,7 +490,7 @@ def run_case(inp, trace=None):
         obj_is_closing = transport.is_closing
         api = None
         sender = None
-        if path in (0, 1, 6):
+        if path in (0, 1, 6, 7):
             closer = (lambda: transport.aclose()) if path == 0 else (lambda: aclose_forcefully(transport))
         elif path == 3:
             from easynetwork.lowlevel.api_async.endpoints.stream import AsyncStreamEndpoint
@@ -462,7 +510,7 @@ def run_case(inp, trace=None):
             t.result()
             closer, obj_is_closing = client.aclose, client.is_closing
             sender = (lambda: client.send_packet("x")) if lock else None
-        elif path in (5, 7):
+        elif path == 5:
             from easynetwork.lowlevel.api_async.servers.stream import ConnectedStreamClient
             from easynetwork.lowlevel._stream import StreamDataProducer
             from easynetwork.servers.async_tcp import _ConnectedClientAPI
@@ -473,17 +521,61 @@ def run_case(inp, trace=None):
             sender = (lambda: api.send_packet("x")) if lock else None
         else:
             raise ValueError(path)
+        in_handler = None
         if path in (6, 7):
-            inner = closer if path == 7 else None
+            # the REAL AsyncStreamServer.serve / __client_coroutine around a request handler that (path 7) calls
+            # client.aclose() of the server-side client API, over a listener that hands out our transport once
+            from easynetwork.lowlevel.api_async.servers.stream import AsyncStreamServer
+            from easynetwork.lowlevel.api_async.transports.abc import AsyncListener
+            from easynetwork.servers.async_tcp import _ConnectedClientAPI
+            from easynetwork.lowlevel.socket import new_socket_address, INETSocketAttribute
+            holder = {}
+
+            class OneShotListener(AsyncListener):
+                closed = False
+
+                async def serve(self, handler, task_group=None):
+                    await handler(transport)
+
+                def is_closing(self):
+                    return self.closed
+
+                async def aclose(self):
+                    self.closed = True
+
+                def backend(self):
+                    return backend
+
+                @property
+                def extra_attributes(self):
+                    return {}
+
+            listener = OneShotListener()
+            server = AsyncStreamServer(listener, proto, 1024)
+            want_lock = bool(lock)
+
+            async def request_handler(lowlevel_client):
+                if path == 7:
+                    sock = lowlevel_client.extra(INETSocketAttribute.socket)
+                    holder["api"] = a = _ConnectedClientAPI(new_socket_address(sock.getpeername(), sock.family), lowlevel_client)
+                    if want_lock:
+                        world.sender_fut = "arm"
+                        world.on_sender_armed = asyncio.Event()
+                        holder["sender"] = loop.create_task(a.send_packet("x"))
+                        await world.on_sender_armed.wait()
+                    world.scripting = True
+                    await a.aclose()
+                return
+                yield       # pragma: no cover  (makes this an async generator)
 
             async def teardown():
-                # AsyncStreamServer.__client_coroutine's exit stack around the handler
-                import contextlib
-                async with contextlib.AsyncExitStack() as stack:
-                    stack.push_async_callback(aclose_forcefully, transport)
-                    if inner is not None:
-                        await inner()
+                try:
+                    await server.serve(request_handler)
+                finally:
+                    listener.closed = True
             closer = teardown
+            sender = None
+            in_handler = holder
 
         sender_task = None
         if sender is not None:
@@ -494,19 +586,27 @@ def run_case(inp, trace=None):
         world.scripting = True
         task = loop.create_task(closer())
         exc = drive(task)
+        if info is not None:
+            info["iterations"] = counter[0]
+        if in_handler is not None:
+            api = in_handler.get("api")
+            sender_task = in_handler.get("sender")
         res = [_code(exc), [int(leafs[0].closed) if 0 in leafs else 0, int(leafs[1].closed) if 1 in leafs else 0],
                int(obj_is_closing()), int(api.is_closing()) if api is not None else 0, world.used]
         snd = []
         if second:
             before = world.used
             task2 = loop.create_task(closer())
-            exc2 = drive(task2)
+            exc2 = drive(task2, is_main=False)
             snd = [_code(exc2), world.used - before,
                    [int(leafs[0].closed) if 0 in leafs else 0, int(leafs[1].closed) if 1 in leafs else 0]]
         if sender_task is not None and not sender_task.done():
             if not world.sender_fut.done():
                 world.sender_fut.set_result(None)
             sp.quiesce()
+        for lf in leafs.values():
+            if isinstance(lf, AdapterLeaf):
+                lf.cleanup()
         return res + [snd]
 
 
@@ -518,7 +618,7 @@ def run_impl(inp):
 
 def oracle(inp):
     path, tr, lock, labels, second = inp[:5]
-    out = run_case(inp)
+    out = run_case(inp[:5], cancel_at=inp[5]) if len(inp) > 5 else run_case(inp)
     res, flags, outer, _api, used, snd = out
     want = leaves_of(tr[-1])
     if path == 2 and res == 0:
@@ -563,6 +663,8 @@ def shapes(thorough):
     bases = [[0, 0, m] for m in ((0, 1, 2, 3) if thorough else (0, 1, 2))]
     bases += [[1, [0, 0, a], [0, 1, b]] for a, b in ((0, 0), (1, 1), (2, 1), (1, 2))]
     out = [[0, b] for b in bases]
+    # the production leaf: the asyncio socket adapter over a real asyncio transport (modelled as a leaf with m = 0)
+    out += [[0, [0, 0, 0, 1]], [0, [1, [0, 0, 0, 1], [0, 1, 0, 1]]], [0, [1, [0, 0, 1], [0, 1, 0, 1]]]]
     for b in ([0, 0, 0], [0, 0, 1], [0, 0, 2], [1, [0, 0, 1], [0, 1, 1]]):
         for std, up in ((1, 2), (1, 1), (1, 0), (0, 0)):
             out.append([1, [std, up, 0], b])
@@ -592,15 +694,17 @@ def cases(tier, rng, escalate):
     for tr in shapes(thorough):
         is_tls = tr[0] == 1
         for path in (0, 1, 3, 4, 5, 6, 7):
-            for lock in ((0, 1) if path in (3, 4, 5, 7) else (0,)):
+            real_leaf = "1]" in str(tr[-1]) and any(len(x) > 3 for x in ([tr[-1]] if tr[-1][0] == 0 else tr[-1][1:]))
+            for lock in ((0, 1) if path in (3, 4, 5, 7) and not real_leaf else (0,)):
                 trace = []
                 run_case([path, tr, lock, [], 0], trace)
                 k = len(trace)
                 extra = 2      # handlers may reach further points once an earlier one failed
                 for labels in label_seqs(k + (extra if k else 0), thorough, rng):
-                    second = 0 if lock else 1
+                    second = 0 if (lock or path in (6, 7)) else 1
                     yield dict(input=[path, tr, lock, labels, second],
                                tags=[f"path{path}", "tls" if is_tls else "plain", "stapled" if tr[-1][0] == 1 else "leaf",
+                                     "asyncio-adapter" if real_leaf else "memory-leaf",
                                      "lock" if lock else "nolock", f"k{k}"] +
                                     [f"label{l}" for l in sorted(set(labels))],
                                nontrivial=bool(lock or any(labels)))
@@ -610,3 +714,28 @@ def cases(tier, rng, escalate):
         for labels in label_seqs(4, thorough, rng):
             yield dict(input=[2, tr, 0, labels, 0], tags=["path2", "tls", "wrap"] + [f"label{l}" for l in sorted(set(labels))],
                        nontrivial=any(labels))
+
+
+def extra(ctx):
+    """Per-iteration cancellation sweep: for shapes whose leaf is the real asyncio socket adapter (its only await is
+    not label driven) and for TLS shapes, the closing task is cancelled after d loop iterations for every d >= 1 of
+    the all-complete run; the conclusion of close_closes is checked (every leaf closed, fd released)."""
+    from common import sx
+    runs = bad = 0
+    shapes_ = [[0, [0, 0, 0, 1]], [0, [1, [0, 0, 0, 1], [0, 1, 0, 1]]], [0, [1, [0, 0, 1], [0, 1, 0, 1]]],
+               [1, [1, 2, 0], [0, 0, 1]], [1, [1, 1, 0], [1, [0, 0, 1], [0, 1, 1]]]]
+    for tr in shapes_:
+        for path in (0, 1, 3, 4, 5, 6, 7):
+            info = {}
+            run_case([path, tr, 0, [], 0], cancel_at=10 ** 9, info=info)
+            for d in range(1, info.get("iterations", 0) + 2):
+                inp = [path, tr, 0, [], 0]
+                out = run_case(inp, cancel_at=d)
+                runs += 1
+                want = leaves_of(tr[-1])
+                if not all(out[1][i] for i in want):
+                    bad += 1
+                    ctx.problems.append(dict(kind="correspondence",
+                                             detail=f"cancel sweep path={path} d={d}: leaf left open, result {out[0]}",
+                                             input=sx.to_text(inp + [d])))
+    return dict(cancel_sweep_runs=runs, cancel_sweep_failures=bad)
